@@ -4,6 +4,7 @@ package sym
 
 import (
 	"fmt"
+	"os"
 	"go/constant"
 	"go/token"
 	"go/types"
@@ -21,6 +22,7 @@ type Program struct {
 	FileHash  map[string]string
 	Intrinsic map[string]Intrinsic
 	GoStub    map[string]*ssa.Function
+	Summary   map[string]*ssa.Function // library functions replaced by contracts unless verif.NoSummaries()
 }
 
 type Intrinsic func(ex *Exec, fr *frame, fn *ssa.Function, args []Value) Value
@@ -85,6 +87,7 @@ type Exec struct {
 	Witnesses []WitnessRec
 	entry    string
 	pin      map[string]string
+	noSummary bool
 }
 
 func NewExec(p *Program, s *Solver, prefix []int) *Exec {
@@ -114,18 +117,9 @@ func (ex *Exec) Assume(t *Term) {
 		}
 		return
 	}
-	if ex.pos < len(ex.prefix) {
-		// inside the replayed prefix: feasibility was established when first explored
-		ex.addPC(t)
-		return
-	}
-	r, _ := ex.S.CheckSat([]*Term{t}, nil)
-	if r == Unsat {
-		panic(PathAbort{"assume infeasible"})
-	}
-	if r == Unknown {
-		ex.unknowns++
-	}
+	// Lazy: the constraint is added without a feasibility query. If it makes the path
+	// infeasible, the next Decide finds both sides unsatisfiable and aborts the path; assertions
+	// checked in between hold vacuously.
 	ex.addPC(t)
 }
 
@@ -308,7 +302,16 @@ func (ex *Exec) CallFunction(caller *frame, fn *ssa.Function, args []Value, env 
 	if in, ok := ex.P.Intrinsic[name]; ok {
 		return in(ex, caller, fn, args)
 	}
+	if cf, ok := concreteFast[name]; ok {
+		if v, ok := cf(args); ok {
+			return v
+		}
+	}
 	if st, ok := ex.P.GoStub[name]; ok {
+		fn = st
+		env = nil
+	} else if st, ok := ex.P.Summary[name]; ok && !ex.noSummary {
+		ex.Notes = appendUniq(ex.Notes, "pure callee replaced by its contract (summary): "+name)
 		fn = st
 		env = nil
 	}
@@ -327,6 +330,9 @@ func (ex *Exec) CallFunction(caller *frame, fn *ssa.Function, args []Value, env 
 	}
 	defer func() { ex.depth-- }()
 	ex.Funcs[fn] = true
+	if ex.Trace {
+		fmt.Fprintf(os.Stderr, "%*scall %s (decisions %d, queries %d)\n", ex.depth, "", name, len(ex.decs), ex.S.Queries)
+	}
 	fr := &frame{fn: fn, env: make(map[ssa.Value]Value, 32), caller: caller, visits: map[*ssa.BasicBlock]int{}}
 	for i, p := range fn.Params {
 		fr.env[p] = args[i]
